@@ -870,7 +870,7 @@ func propC05(r *Run, w *World) {
 					if _, isMk := st.Val.(*ssa.MakeMap); isMk {
 						nonNil = true
 					}
-					if HoldsAt(st.Block(), Term(st.Val)+" != nil") || strings.HasPrefix(Term(st.Val), "errors.New(") {
+					if HoldsAt(st.Block(), Term(st.Val)+" != nil") || strings.HasPrefix(Term(st.Val), "errors.New(") || definitelyNonNil(st.Val) {
 						nonNil = true
 					}
 				}
@@ -1306,6 +1306,10 @@ func propC12(r *Run, w *World) {
 		} else {
 			ok := 0
 			for _, ret := range retEdges(fh) {
+				if len(ret.Results) != 2 {
+					ok = -10
+					continue
+				}
 				t := Term(ret.Results[0]) + "," + Term(ret.Results[1])
 				g := ret.Lits()
 				switch t {
@@ -1450,12 +1454,8 @@ func propC12(r *Run, w *World) {
 				}
 			})
 			r.Check(strings.Join(sl, " ") == "p0[:2] p0[2:4] p0[4:6] p0[6:8]", "hexToIP octets", hi.Pos(), "", "IPv4 octets are not h[0:2] h[2:4] h[4:6] h[6:8]: "+strings.Join(sl, " "))
-			okFmt := false
-			for _, c := range callsNamedIn(hi, "fmt.Sprintf") {
-				f, _ := constString(c.Common().Args[0])
-				okFmt = f == "%d.%d.%d.%d"
-			}
-			r.Check(okFmt, "hexToIP dotted quad", hi.Pos(), "", "IPv4 is not printed as %d.%d.%d.%d")
+			okFmt, how := dottedQuad(hi)
+			r.Check(okFmt, "hexToIP dotted quad", hi.Pos(), how, "IPv4 is not printed as four decimal octets h[0:2].h[2:4].h[4:6].h[6:8] in that order: "+how)
 		} else {
 			r.Anchor(err)
 		}
@@ -1547,4 +1547,120 @@ func guardBeforeAll(fn *ssa.Function, lit string) bool {
 		}
 	})
 	return ok
+}
+
+// dottedQuad reports whether fn renders an IPv4 address as the four decimal octets decoded
+// from p0[:2], p0[2:4], p0[4:6], p0[6:8], in that order, separated by dots. Two spellings are
+// recognised: fmt.Sprintf("%d.%d.%d.%d", a1, a2, a3, a4) and a concatenation of decimal
+// conversions (strconv.Itoa / FormatInt(…, 10) / FormatUint(…, 10)) with "." literals.
+func dottedQuad(fn *ssa.Function) (bool, string) {
+	want := []string{"p0[:2]", "p0[2:4]", "p0[4:6]", "p0[6:8]"}
+	// octet returns the slice term the integer value v was decoded from
+	octet := func(v ssa.Value) string {
+		for i := 0; i < 6; i++ {
+			switch x := v.(type) {
+			case *ssa.Convert:
+				v = x.X
+				continue
+			case *ssa.ChangeType:
+				v = x.X
+				continue
+			case *ssa.MakeInterface:
+				v = x.X
+				continue
+			case *ssa.Extract:
+				if x.Index != 0 {
+					return Term(x)
+				}
+				if c, ok := x.Tuple.(*ssa.Call); ok && len(c.Call.Args) >= 1 {
+					return Term(c.Call.Args[0])
+				}
+			case *ssa.Call:
+				if len(x.Call.Args) >= 1 && x.Call.Signature().Results().Len() == 1 {
+					return Term(x.Call.Args[0])
+				}
+			}
+			break
+		}
+		return Term(v)
+	}
+	decimal := func(v ssa.Value) (ssa.Value, bool) {
+		c, ok := v.(*ssa.Call)
+		if !ok {
+			return nil, false
+		}
+		switch calleeName(c) {
+		case "strconv.Itoa":
+			return c.Call.Args[0], true
+		case "strconv.FormatInt", "strconv.FormatUint":
+			if b, ok := constInt(c.Call.Args[1]); ok && b == 10 {
+				return c.Call.Args[0], true
+			}
+		}
+		return nil, false
+	}
+	how := "no rendering found"
+	found := false
+	instrsOf(fn, func(in ssa.Instruction) {
+		if found {
+			return
+		}
+		var got []string
+		switch x := in.(type) {
+		case *ssa.Call:
+			if calleeName(x) != "fmt.Sprintf" {
+				return
+			}
+			f, _ := constString(x.Call.Args[0])
+			if f != "%d.%d.%d.%d" {
+				how = fmt.Sprintf("Sprintf format %q", f)
+				return
+			}
+			for _, e := range varargElems(x, 1) {
+				if e == nil {
+					got = append(got, "?")
+					continue
+				}
+				got = append(got, octet(e))
+			}
+		case *ssa.BinOp:
+			parts := renderParts(x)
+			if len(parts) != 7 {
+				return
+			}
+			// only the outermost concatenation
+			if refs := x.Referrers(); refs != nil {
+				for _, rr := range *refs {
+					if b, ok := rr.(*ssa.BinOp); ok && b.Op == token.ADD {
+						return
+					}
+				}
+			}
+			for i, p := range parts {
+				if i%2 == 1 {
+					if p.Val != nil || p.Lit != "." {
+						how = "separator is not \".\""
+						return
+					}
+					continue
+				}
+				if p.Val == nil {
+					return
+				}
+				d, ok := decimal(p.Val)
+				if !ok {
+					how = "operand " + Term(p.Val) + " is not a decimal conversion"
+					return
+				}
+				got = append(got, octet(d))
+			}
+		default:
+			return
+		}
+		how = strings.Join(got, ".")
+		if strings.Join(got, " ") == strings.Join(want, " ") {
+			found = true
+		}
+	})
+	return found, how
 }
